@@ -1233,9 +1233,145 @@ Proof.
       * apply IH; [exact Hcs'|constructor; assumption|simpl; unfold pc_width in *; lia|left; simpl; unfold pc_width in *; lia].
 Qed.
 
+(* pager_presents: every logical line of the text has its rows *)
+
+Lemma zlist_eqb_eq : forall a b : list Z, zlist_eqb a b = true -> a = b.
+Proof.
+  unfold zlist_eqb. induction a as [|x a IH]; intros [|y b] E; simpl in E; try discriminate; [reflexivity|].
+  apply andb_true_iff in E as [E1 E2]. apply Z.eqb_eq in E1. subst y. f_equal. apply IH; exact E2.
+Qed.
+
+Lemma pchar_eqb_eq (a b : pchar) : pchar_eqb a b = true -> a = b.
+Proof.
+  destruct a as [g w], b as [g' w']. unfold pchar_eqb. cbn [fst snd]. intros E.
+  apply andb_true_iff in E as [E1 E2]. apply zlist_eqb_eq in E1. apply Z.eqb_eq in E2. now subst.
+Qed.
+
+Lemma strip_row_app : forall r rest, forallb not_nl r = true -> strip_row r (r ++ rest) = Some rest.
+Proof.
+  induction r as [|x r IH]; intros rest Hr; [reflexivity|].
+  cbn [forallb] in Hr. apply andb_true_iff in Hr as [Hx Hr]. unfold not_nl in Hx.
+  cbn [strip_row app]. rewrite Hx, pchar_eqb_refl. cbn [andb]. apply IH; exact Hr.
+Qed.
+
+Lemma strip_row_inv : forall r cs rest,
+  strip_row r cs = Some rest -> cs = r ++ rest /\ forallb not_nl r = true.
+Proof.
+  induction r as [|x r IH]; intros cs rest E.
+  - cbn [strip_row] in E. injection E as <-. split; reflexivity.
+  - cbn [strip_row] in E. destruct cs as [|c t]; [discriminate|].
+    destruct (negb (is_nl c) && pchar_eqb x c) eqn:Ec; [|discriminate].
+    apply andb_true_iff in Ec as [Ec1 Ec2]. apply pchar_eqb_eq in Ec2. subst c.
+    destruct (IH _ _ E) as [-> Hr]. split; [reflexivity|]. cbn [forallb]. unfold not_nl at 1. now rewrite Ec1.
+Qed.
+
+(* an empty row more in front never hurts (the row Layout adds for a newline that follows a row
+   which was flushed at the width) *)
+Lemma presents_nil_rows : forall rows, presents [] rows = true -> forallb row_empty rows = true.
+Proof.
+  intros [|r rows] E; [reflexivity|]. cbn [presents] in E. destruct r as [|x r]; [|discriminate E].
+  cbn [strip_row] in E. exact E.
+Qed.
+
+Lemma presents_cons_empty : forall rows cs, presents cs rows = true -> presents cs ([] :: rows) = true.
+Proof.
+  induction rows as [|r rows IH]; intros cs E.
+  - destruct cs; [reflexivity|discriminate E].
+  - cbn [presents strip_row]. destruct cs as [|c t].
+    + apply presents_nil_rows. exact E.
+    + destruct (is_nl c) eqn:En; [|exact E].
+      cbn [presents] in E. destruct r as [|x r].
+      * cbn [strip_row] in E. rewrite En in E. apply IH. exact E.
+      * cbn [strip_row] in E. rewrite En in E. discriminate E.
+Qed.
+
+Lemma layout_go_presents w : forall cs cur col,
+  forallb not_nl cur = true -> presents (rev cur ++ cs) (layout_go w cs cur col) = true.
+Proof.
+  assert (Hrev : forall l, forallb not_nl l = true -> forallb not_nl (rev l) = true).
+  { intros l Hl. rewrite forallb_forall in *. intros x Hx. apply Hl. now apply in_rev. }
+  induction cs as [|c t IH]; intros cur col Hc.
+  - cbn [layout_go]. rewrite app_nil_r. destruct cur as [|x cur]; [reflexivity|].
+    cbn [presents]. rewrite <- (app_nil_r (rev (x :: cur))) at 2. rewrite strip_row_app by (apply Hrev; exact Hc).
+    reflexivity.
+  - cbn [layout_go]. destruct (is_nl c) eqn:En.
+    + cbn [presents]. rewrite strip_row_app by (apply Hrev; exact Hc). rewrite En.
+      apply (IH [] 0 eq_refl).
+    + assert (Hc' : forallb not_nl (c :: cur) = true) by (cbn [forallb]; unfold not_nl at 1; rewrite En; exact Hc).
+      destruct (w <=? col + pc_width c).
+      * cbn [presents]. replace (rev cur ++ c :: t) with (rev (c :: cur) ++ t) by (cbn [rev]; now rewrite <- app_assoc).
+        rewrite strip_row_app by (apply Hrev; exact Hc').
+        pose proof (IH [] 0 eq_refl) as IH0. cbn [rev app] in IH0.
+        destruct t as [|c' t']; [reflexivity|].
+        destruct (is_nl c') eqn:En'; [|exact IH0].
+        cbn [layout_go] in IH0 |- *. rewrite En' in IH0 |- *. cbn [rev] in IH0 |- *.
+        cbn [presents strip_row] in IH0. rewrite En' in IH0.
+        apply presents_cons_empty. exact IH0.
+      * replace (rev cur ++ c :: t) with (rev (c :: cur) ++ t) by (cbn [rev]; now rewrite <- app_assoc).
+        apply IH. exact Hc'.
+Qed.
+
+Theorem layout_presents w cs : presents cs (layout w cs) = true.
+Proof. unfold layout. apply (layout_go_presents w cs [] 0 eq_refl). Qed.
+
+(* what the decision procedure means: [presents] implies the declarative [presented] *)
+Lemma logical_lines_app : forall r rest, forallb not_nl r = true ->
+  logical_lines (r ++ rest) =
+  match logical_lines rest with
+  | [] => match r with [] => [] | _ => [r] end
+  | l :: ls => (r ++ l) :: ls
+  end.
+Proof.
+  induction r as [|x r IH]; intros rest Hr.
+  - cbn [app]. destruct (logical_lines rest); reflexivity.
+  - cbn [forallb] in Hr. apply andb_true_iff in Hr as [Hx Hr]. unfold not_nl in Hx.
+    apply negb_true_iff in Hx. cbn [app logical_lines]. rewrite Hx, (IH rest Hr).
+    destruct (logical_lines rest) as [|l ls]; [destruct r; reflexivity|reflexivity].
+Qed.
+
+Lemma logical_lines_nl c t : is_nl c = true -> logical_lines (c :: t) = [] :: logical_lines t.
+Proof. intros E. cbn [logical_lines]. now rewrite E. Qed.
+
+Lemma logical_lines_nonempty c t : logical_lines (c :: t) <> [].
+Proof. cbn [logical_lines]. destruct (is_nl c); [discriminate|]. destruct (logical_lines t); discriminate. Qed.
+
+Lemma forallb_row_empty rows : forallb row_empty rows = true -> Forall (fun r : list pchar => r = []) rows.
+Proof.
+  intros E. apply Forall_forall. intros r Hr. rewrite forallb_forall in E. specialize (E r Hr).
+  destruct r; [reflexivity|discriminate E].
+Qed.
+
+Theorem presents_sound : forall rows cs, presents cs rows = true -> presented cs rows.
+Proof.
+  induction rows as [|r rows IH]; intros cs E.
+  - destruct cs; [|discriminate E]. exists [], []. repeat split; constructor.
+  - cbn [presents] in E. destruct (strip_row r cs) as [rest|] eqn:Es; [|discriminate E].
+    destruct (strip_row_inv _ _ _ Es) as [-> Hr].
+    destruct rest as [|c t].
+    + apply forallb_row_empty in E. rewrite app_nil_r. destruct r as [|x r].
+      * exists [], ([] :: rows). repeat split; [constructor|constructor; [reflexivity|exact E]].
+      * exists [[x :: r]], rows. split; [reflexivity|]. split; [|exact E].
+        pose proof (logical_lines_app (x :: r) [] Hr) as HL. rewrite app_nil_r in HL. rewrite HL. cbn [logical_lines].
+        constructor; [|constructor]. split; [discriminate|]. cbn [concat]. now rewrite app_nil_r.
+    + destruct (is_nl c) eqn:En.
+      * destruct (IH _ E) as (groups & extra & -> & HF & Hx).
+        exists ([r] :: groups), extra. split; [reflexivity|]. split; [|exact Hx].
+        rewrite logical_lines_app by exact Hr. rewrite (logical_lines_nl c t En).
+        constructor; [|exact HF]. split; [discriminate|]. cbn [concat]. now rewrite !app_nil_r.
+      * destruct (IH _ E) as (groups & extra & -> & HF & Hx).
+        unfold presented. rewrite logical_lines_app by exact Hr.
+        destruct (logical_lines (c :: t)) as [|l ls] eqn:El; [exfalso; eapply logical_lines_nonempty; exact El|].
+        inversion HF as [|l0 g ls0 gs [Hg1 Hg2] HF' E1 E2]. subst.
+        exists ((r :: g) :: gs), extra. split; [reflexivity|]. split; [|exact Hx].
+        constructor; [|exact HF']. split; [discriminate|]. reflexivity.
+Qed.
+
+Theorem layout_presented w cs : presented cs (layout w cs).
+Proof. apply presents_sound, layout_presents. Qed.
+
 Theorem layout_lines_ok w cs : wf_chars cs -> lines_ok w cs (layout w cs) = true.
 Proof.
-  intros Hw. unfold lines_ok. rewrite layout_complete.
+  intros Hw. unfold lines_ok. rewrite layout_presents, andb_true_r. rewrite layout_complete.
   fold not_nl. rewrite (list_eqb_refl pchar_eqb _ pchar_eqb_refl). simpl.
   unfold layout. rewrite layout_go_wrap; auto; [|constructor]. simpl.
   apply (layout_go_no_nl w cs [] 0 eq_refl).
